@@ -8,9 +8,9 @@ export CARGO_NET_OFFLINE=true
 {
 echo "== suite with change"; cargo test -p ark-poly-commit --offline --lib 2>&1 | grep -E "^test result|FAILED|panicked" | head -5
 echo "== demo with change"; cargo test -p ark-poly-commit --offline --test seed_demo 2>&1 | grep -E "^test result|^test .*FAILED|^error" | head -8
-git stash push -q -- poly-commit/src
+git apply -R _seed/patch.diff    # (not git stash: the stash is shared between worktrees)
 echo "== demo without change"; cargo test -p ark-poly-commit --offline --test seed_demo 2>&1 | grep -E "^test result|^test .*FAILED|^error" | head -8
-git stash pop -q
+git apply _seed/patch.diff
 } > $log 2>&1
 mkdir -p /verif/seeded/$id
 cp $wt/_seed/patch.diff /verif/seeded/$id/patch.diff
